@@ -217,9 +217,9 @@ CHECKS["C14"] = dict(
     technique="explicit-state enumeration on the implementation: every call sequence over {write(size, content class), rotate} up to a length on the real gzip/xz writers, outputs decompressed by zlib/liblzma decoders (and Python's gzip/lzma in the thorough tier) and compared with the bytes written",
     level_text="All sequences up to the bound over writes of sizes {0,1,2,2047,2048,2049,65536,1 MiB} x content classes {zeros, text-like, incompressible, gzip-looking} and rotations, for GZIP and XZ, to named files and descriptors, plus single writes of 5..48 MiB (8 MiB in the quick tier) alone and after a rotation: every output file must carry the .gz/.xz suffix (named), have no .part left, be exactly one complete stream (decoder reaches stream end with no input left) and decompress to exactly the bytes written since the previous rotation. Runs on an uninstrumented build with the default 8 MiB stack in forked workers, so a crash of the writer is attributed to its sequence.",
     level_note="Trusted: zlib inflate / liblzma stream decoder as decompressors (Python's gzip and lzma modules wrap the same C libraries; they are run on a sample in the thorough tier as a cross-check of the harness' own decoder loop). The end-to-end path through the exporter: 25000 / 60000-record exports (3 content kinds) compared with the uncompressed export of the same records, plus C13's gzip/xz profiles. The harness defines deflate and lzma_code itself as passive observers (the real functions are called unchanged) that classify every codec pass; the stage is rejected as vacuous unless passes that consumed only part of a chunk and finishes that needed several passes were reached.",
-    stages=[dict(harness="comp", variant="plain", require=["gz_partial_input_passes", "gz_finish_multipass", "xz_finish_multipass", "export_runs"]),
+    stages=[dict(harness="comp", variant="plain", require=["gz_partial_input_passes", "gz_finish_multipass", "xz_finish_multipass", "export_runs", "short_writes"]),
             dict(kind="py", harness="decomp", tiers=("thorough",), prefix="py_")],
-    rule="stateless DFS over the (size, class)/rotate alphabet for 2 formats x 2 sink kinds; chunking sweep: 600 KiB (thorough: 4 MiB for gzip) written in chunks of one size, for text-like / incompressible / mixed-entropy data; end-to-end exports; non-trivial = at least one step; all distinct",
+    rule="stateless DFS over the (size, class)/rotate alphabet for 2 formats x 2 sink kinds; chunking sweep: 600 KiB (thorough: 4 MiB for gzip) written in chunks of one size, for text-like / incompressible / mixed-entropy data; end-to-end exports; environment deviation 'short write' (every write(2) transfers at most 1 / 7 / 1000 / 4096 / 65536 bytes) on two sequences per format and sink; non-trivial = at least one step; all distinct",
     bound_quick="sequences of length <= 2 (29 steps alphabet) + 8 MiB single writes", bound_thorough="length <= 3 + single writes of 5, 6, 8, 16, 48 MiB",
     assumptions=["default RLIMIT_STACK (8 MiB)"],
 )
@@ -228,22 +228,22 @@ ENGINES.append(dict(name="E-COMP", path="harness/comp.cpp", serves_properties=["
 CHECKS["C15"] = dict(
     level="fault_enumeration", engine="E-FAULT",
     technique="exhaustive crash-point enumeration on the implementation: the process is killed immediately before every output-related system call (write, writev, rename) of each scenario, with the calls interposed in the harness executable",
-    level_text="18 scenarios ({plain, gzip, xz} x {single output closed by destruction; three rotations with and without export; rotation onto a name that already holds an older complete file; rotation back onto the first name; destruction with buffered but unwritten data; destruction with nothing written}), records of 3 KB so that blocks span several encoder flushes and the ofstream buffer spills mid-block. A trace run records the K output calls; for every k in 1..K a forked child runs the scenario and _exits immediately before its k-th call; afterwards every directory entry not ending in .part must be byte-identical to one of the complete versions that name legitimately holds (the pre-existing file or a closed output of the uninterrupted run, each validated as a complete stream and valid C-DNS file). The trace run also checks that every data write targets a *.part path.",
+    level_text="30 scenarios ({plain, gzip, xz} x {single output closed by destruction; three rotations with and without export; rotation onto a name that already holds an older complete file; rotation back onto the first name; destruction with buffered but unwritten data; destruction with nothing written; high-entropy records (the compressor holds several KB at close, finishing takes several passes); stale '.part' files left by a dead run}), records of 3 KB so that blocks span several encoder flushes and the ofstream buffer spills mid-block. A trace run records the K output calls; for every k in 1..K a forked child runs the scenario and _exits immediately before its k-th call; afterwards every directory entry not ending in .part must be byte-identical to one of the complete versions that name legitimately holds (the pre-existing file or a closed output of the uninterrupted run, each validated as a complete stream and valid C-DNS file). The trace run also checks that every data write targets a *.part path.",
     level_note="Crash model = process death between system calls (the property's model); no power loss / page cache reasoning. Trusted: path of a descriptor read from /proc/self/fd at call time; write/writev/rename are the only output calls libstdc++ and the library issue (verified by the trace containing all bytes).",
     stages=[dict(harness="fault", variant="plain", args=["--mode", "crash"], link=["-rdynamic"], require=["gz_finish_multipass", "xz_finish_multipass"])],
     rule="(scenario, k) pairs enumerated exhaustively; a run is non-trivial when the child really stopped at call k (exit code 77), otherwise it is reported as a harness error",
-    bound_quick="all 18 scenarios, every k", bound_thorough="same (the space is small and fully covered in the quick tier)",
+    bound_quick="all 30 scenarios, every k", bound_thorough="same (the space is small and fully covered in the quick tier)",
     assumptions=["tmpfs scratch directory"],
 )
 
 CHECKS["C16"] = dict(
     level="fault_enumeration", engine="E-FAULT",
     technique="exhaustive fault-point enumeration on the implementation: every write/writev of each scenario fails with ENOSPC / EIO or is cut short, once or persistently, with the documented recovery protocol as driver",
-    level_text="30 scenarios (the C15 ones for named outputs plus descriptor outputs). For every write call k of the trace x {ENOSPC, EIO, short count} x {only call k, every later call to the same output}: a forked child runs the history reacting as documented (on the first exception: rotate_output(healthy, false), write_block(), destroy; otherwise rotate_output(healthy, true)). Clause 1: every output closed by a rotate_output that returned normally after the same history as the fault-free run must hold exactly the fault-free bytes. Clause 2: after an exception from a block write the buffered item count is unchanged, the rotate_output to the healthy destination returns normally and the recovery output is a complete valid file holding exactly the records of the failed block.",
+    level_text="45 scenarios (the C15 ones for named outputs plus descriptor outputs). For every write call k of the trace x {ENOSPC, EIO, short count} x {only call k, every later call to the same output}: a forked child runs the history reacting as documented (on the first exception: rotate_output(healthy, false), write_block(), destroy; otherwise rotate_output(healthy, true)). Clause 1: every output closed by a rotate_output that returned normally after the same history as the fault-free run must hold exactly the fault-free bytes. Clause 2: after an exception from a block write the buffered item count is unchanged, the rotate_output to the healthy destination returns normally and the recovery output is a complete valid file holding exactly the records of the failed block.",
     level_note="A write that keeps returning 0 is not injected (libstdc++ retries forever; says nothing about c-dns). Failures of rename/open/close are outside the enumerated faults. Known findings D12a-c are listed in known_findings.json by (clause, sink kind, compression, whether the faulted output is the one closed).",
     stages=[dict(harness="fault", variant="plain", args=["--mode", "fault"], link=["-rdynamic"])],
     rule="(scenario, k, fault kind, persistence) tuples enumerated exhaustively; non-trivial = the injected point was reached; unreachable points are harness errors",
-    bound_quick="all 30 scenarios, every write call, 3 fault kinds x 2 persistence modes", bound_thorough="same",
+    bound_quick="all 45 scenarios, every write call, 3 fault kinds x 2 persistence modes", bound_thorough="same",
     assumptions=["C16 clause 1 is read as 'no silent loss': an exception no later than the rotate_output that closes the output (DESIGN 8.2)"],
 )
 ENGINES.append(dict(name="E-FAULT", path="harness/fault.cpp", serves_properties=["C15", "C16"], kind_free_text="exhaustive crash-point / write-fault enumeration with interposed write, writev, rename"))
@@ -251,8 +251,8 @@ ENGINES.append(dict(name="E-FAULT", path="harness/fault.cpp", serves_properties=
 _TOOLS = ["cdns-merge", "cdns-itemcount", "cdns-blocks", "cdns-items", "cdns-preamble"]
 CHECKS["C18"] = dict(
     level="exploration", engine="E-CLI",
-    technique="exhaustive enumeration of argument tuples on the real tool binaries: every tuple of 1..3 inputs over a pool of 11 files through cdns-merge, cdns-itemcount with every option combination, compared with the independent reader",
-    level_text="Pool: A (1 parameter set, 10^6 ticks, 3 blocks), B (2 sets, 10^3 ticks, reduced hints, collection parameters, 4 blocks alternating sets), C (10^9 ticks, all QR hints off, statistics), D (minor version differs), E (private version differs), G (300 non-C-DNS bytes), H (B cut inside its 2nd block), I (valid, zero blocks), J (10^9 ticks, blocks without block-parameters-index), K (A with two empty blocks), Z (missing path). All 11+121+1331 tuples (+ one tuple of 142 inputs whose 280 distinct parameter sets push the merged file's block-parameters indices beyond 8 bits) are merged by the real cdns-merge (ASan/UBSan build); expected blocks = non-empty blocks of every input that is C-DNS and version-equal to the first readable one, up to its first error, in order; the output must validate, hold exactly those blocks with records, statistics, earliest time and absolute times unchanged, and each block's parameter set in the output preamble must equal the one it had in its source; with no contributing block the output must be empty. cdns-itemcount (-b, -p, both, none) on every valid input and merged output must print the counts of the independent parse.",
+    technique="exhaustive enumeration of argument tuples on the real tool binaries: every tuple of 1..3 inputs over a pool of 12 files through cdns-merge, cdns-itemcount with every option combination, compared with the independent reader",
+    level_text="Pool: A (1 parameter set, 10^6 ticks, 3 blocks), B (2 sets, 10^3 ticks, reduced hints, collection parameters, 4 blocks alternating sets), C (10^9 ticks, all QR hints off, statistics), D (minor version differs), E (private version differs), G (300 non-C-DNS bytes), H (B cut inside its 2nd block), I (valid, zero blocks), J (10^9 ticks, blocks without block-parameters-index), K (A with two empty blocks), Z (missing path). All 12+144+1728 tuples (+ one tuple of 142 inputs whose 280 distinct parameter sets push the merged file's block-parameters indices beyond 8 bits) are merged by the real cdns-merge (ASan/UBSan build); expected blocks = non-empty blocks of every input that is C-DNS and version-equal to the first readable one, up to its first error, in order; the output must validate, hold exactly those blocks with records, statistics, earliest time and absolute times unchanged, and each block's parameter set in the output preamble must equal the one it had in its source; with no contributing block the output must be empty. cdns-itemcount (-b, -p, both, none) on every valid input and merged output must print the counts of the independent parse.",
     level_note="Trusted: ref/ reader for inputs and outputs; integers are extracted from the tools' stdout without relying on the free-text layout. The other inspection tools are covered for safety by C03's tools stage.",
     stages=[dict(harness="cli", variant="asan", args=["--mode", "merge"], tools=["cdns-merge", "cdns-itemcount"])],
     rule="tuples enumerated exhaustively (order matters, repetition allowed); every tuple is a distinct real tool run; non-trivial: all",
